@@ -86,7 +86,7 @@ func (in *Interp) unsupportedIntrinsic(name string) {
 	// resolved lazily at call time
 }
 
-var intrinsics map[string]intrinsicFn
+var intrinsics = map[string]intrinsicFn{}
 var harnessAPI map[string]intrinsicFn
 
 func asTerm(in *Interp, v Value) *Term {
@@ -516,7 +516,7 @@ func init() {
 		}
 	}
 
-	intrinsics = map[string]intrinsicFn{
+	base := map[string]intrinsicFn{
 		"math/big.NewInt": func(in *Interp, fr *frame, fn *ssa.Function, a []Value) Value {
 			return in.bigPtr(in.tt.Bv2Int(asTerm(in, a[0]), true))
 		},
@@ -909,6 +909,9 @@ func init() {
 			}
 			return in.tt.Bool(strings.EqualFold(x, y))
 		},
+	}
+	for k, v := range base {
+		intrinsics[k] = v
 	}
 	for _, w := range []string{"32", "64"} {
 		w := w
